@@ -75,18 +75,24 @@ Section Premises.
   Lemma fold_interiors o l : forall st,
     let st' := fold_left (fun st s => add_result D ops o st (mkR (d_zero ops) s (-1))) l st in
     s_queue st' = s_queue st /\ s_tested st' = s_tested st /\ (l = [] -> st' = st) /\
-    (l <> [] -> o_max_results o = 1 -> s_limit st' = sub (d_zero ops) (o_max_error o)).
+    (l <> [] -> o_max_results o = 1 -> s_limit st' = sub (d_zero ops) (o_max_error o)) /\
+    (o_max_results o <> 1 -> s_limit st' = s_limit st) /\
+    s_results st' = rev (map (fun s => mkR (d_zero ops) s (-1)) l) ++ s_results st.
   Proof.
     induction l as [|s l IH]; intros st; cbn.
     - repeat split; congruence.
-    - destruct (IH (add_result D ops o st (mkR (d_zero ops) s (-1)))) as (Q & T & N & L).
-      split; [|split; [|split]].
+    - destruct (IH (add_result D ops o st (mkR (d_zero ops) s (-1)))) as (Q & T & N & L & Ln & R).
+      split; [|split; [|split; [|split; [|split]]]].
       + rewrite Q. unfold add_result. destruct (o_max_results o =? 1); reflexivity.
       + rewrite T. unfold add_result. destruct (o_max_results o =? 1); reflexivity.
       + discriminate.
       + intros _ K. destruct l as [|s' l'].
         * cbn. unfold add_result. rewrite K. reflexivity.
         * apply L; [discriminate|exact K].
+      + intros K. rewrite (Ln K). unfold add_result.
+        destruct (o_max_results o =? 1) eqn:E; [apply Z.eqb_eq in E; contradiction|reflexivity].
+      + rewrite R. rewrite <- app_assoc. cbn. f_equal.
+        unfold add_result. destruct (o_max_results o =? 1); reflexivity.
   Qed.
 
   Lemma interiors_state_props o t :
@@ -96,10 +102,22 @@ Section Premises.
   Proof.
     cbn. unfold interiors_state. destruct (o_interiors o); [|cbn; auto].
     set (l := containing_shapes D o (t_containing t) []).
-    destruct (fold_interiors o l (mkSt (o_limit o) [] [] [])) as (Q & T & N & L).
+    destruct (fold_interiors o l (mkSt (o_limit o) [] [] [])) as (Q & T & N & L & _).
     split; [exact Q|split; [exact T|]]. intros K. destruct l as [|s l'].
     - left. rewrite (N eq_refl). reflexivity.
     - right. apply L; [discriminate|exact K].
+  Qed.
+
+  Lemma interiors_state_limit o t :
+    (o_max_results o <> 1 \/ s_results (interiors_state o t) = []) -> s_limit (interiors_state o t) = o_limit o.
+  Proof.
+    unfold interiors_state. destruct (o_interiors o); [|reflexivity].
+    set (l := containing_shapes D o (t_containing t) []).
+    destruct (fold_interiors o l (mkSt (o_limit o) [] [] [])) as (_ & _ & N & _ & Ln & R).
+    intros [K|E]; [apply (Ln K)|].
+    destruct l as [|s l']; [rewrite (N eq_refl); reflexivity|].
+    exfalso. rewrite R in E. cbn in E. apply app_eq_nil in E. destruct E as [E _].
+    apply app_eq_nil in E. destruct E as [_ E]. discriminate.
   Qed.
 
   (** the shape of findEdgesInternal: an early exit, or one of the two searches from the
@@ -179,5 +197,44 @@ Section Premises.
           destruct (o_interiors o) eqn:Ei; cbn in N1; [discriminate|].
           unfold interiors_state in L. rewrite Ei in L. cbn in L.
           rewrite L, Ez in N0. rewrite (proj2 (eqb_spec _ OK _ _) eq_refl) in N0. discriminate.
+  Qed.
+
+  (** *** MaxResults = 1 with a permitted error (this is also how IsDistanceLess searches) *)
+  Theorem opt_within_error_main o t x brk edist cdist Vq :
+    SearchPremises o t x brk edist cdist Vq -> Terminates o t x brk ->
+    o_max_results o = 1 -> d_eqb ops (o_limit o) (d_zero ops) = false ->
+    s_results (interiors_state o t) = [] ->
+    let out := find_edges ops o t x false brk in
+    (out = [] <-> forall e, In e (all_edges x) -> less (edist e) (o_limit o) = false) /\
+    (forall r, In r out ->
+       (exists e, In e (all_edges x) /\ r = mkres D edist e /\ less (edist e) (o_limit o) = true) /\
+       (forall e, In e (all_edges x) -> less (edist e) (sub (r_dist r) (o_max_error o)) = false)).
+  Proof.
+    intros [[Ee Ec] Sl Lb Sp (HI & Hn & Hpush & Hpop) Em Zm Cv Ix] Term K L0 R1. cbn.
+    unfold find_edges, find_edges_from. unfold Terminates in Term.
+    destruct (interiors_state_props o t) as (Q1 & T1 & _).
+    assert (Lim1 : s_limit (interiors_state o t) = o_limit o) by (apply interiors_state_limit; right; exact R1).
+    assert (T0 : TestedOK D ops edist (interiors_state o t)) by (intros e He; rewrite T1 in He; contradiction).
+    pose proof (EI_init D ops OK o edist (fun e => In e (all_edges x)) (interiors_state o t)) as E0.
+    rewrite R1, Lim1 in E0.
+    destruct (fei_shape o t x brk) as [[_ A0]|[(_ & _ & A1 & _)|(_ & _ & Ho)]].
+    - congruence.
+    - rewrite Lim1 in A1. congruence.
+    - cbn in Ho. destruct Ho as [Ho|(_ & cons & avoid & Ho)].
+      + (* the brute-force path *)
+        rewrite Ho. destruct (brute_spec D ops OK o t x edist Ee Sl [] (o_limit o) _ T0 E0) as (EIb & Dnb & _).
+        cbn in EIb, Dnb. set (sb := find_edges_brute D ops o t x false (interiors_state o t)) in *.
+        destruct (k1_result D ops OK o edist Sl (o_limit o) (fun e => In e (all_edges x)) sb K EIb Dnb) as [Hnil Hne].
+        cbn in Hnil, Hne. destruct (s_results sb) as [|r0 l0] eqn:Ers.
+        * destruct (Hnil eq_refl) as [Eo Far]. rewrite Eo. split; [split; [intros _; exact Far|reflexivity]|intros r []].
+        * destruct Hne as (hd & Eo & Hh & Opt); [discriminate|]. rewrite Eo.
+          destruct EIb as (Sb & _). destruct (Sb hd) as [[]|(e & Pe & E & L)]; [rewrite Ers; exact Hh|].
+          split.
+          -- split; [discriminate|]. intros Far. rewrite (Far e Pe) in L. discriminate.
+          -- intros r [<-|[]]. split; [exists e; auto|exact Opt].
+      + rewrite Ho in Term |- *.
+        pose proof (opt_within_error_core D ops OK o t x edist cdist Ee Ec Sl Vq HI Lb Sp Hn Hpush Hpop brk Em Zm Cv Ix
+                      cons avoid (interiors_state o t) Q1 T1 R1 K Term) as H.
+        cbn in H. rewrite Lim1 in H. exact H.
   Qed.
 End Premises.
